@@ -17,7 +17,9 @@ The rule (property C04, read literally):
   ``|h| <= tol_eq`` component-wise (NaN compares false, hence infeasible);
 * if a feasible point exists, the reported point must be a feasible recorded point and no feasible recorded
   point with a usable (recorded, non-NaN) objective may have a strictly smaller standardised objective
-  (Euclidean norm for vector objectives);
+  (Euclidean norm for vector objectives).  A missing or NaN objective is *not an objective value*: it ranks
+  after every value (as +inf does), so a feasible point without a usable objective is acceptable only when no
+  feasible point has one - every finite value is strictly smaller than "nothing comparable";
 * otherwise the reported point must be a recorded point, flagged infeasible, of minimal violation measure
   ``||max(g-tol,0)||^2 + ||max(|h|-tol,0)||^2`` (NaN => +inf).  A point with missing constraint values has
   no defined measure; every term of the measure is non-negative, so the sum over its *recorded* values is a
@@ -100,6 +102,7 @@ class Analysis:
         self.any_feasible = any(self.feasible)
         self.all_full = all(self.full)
         self.usable = [i for i in range(self.n) if self.feasible[i] and self.keys[i] is not None]
+        self.incomparable = set()
         self.vector_objective = any(p["f"] is not None and _arr(p["f"]).size > 1 for p in history)
         if self.any_feasible:
             if self.usable:
@@ -107,8 +110,9 @@ class Analysis:
                 slack = 1e-12 * abs(best) if self.vector_objective else 0.0
                 self.best_key = best
                 self.acceptable = {i for i in self.usable if self.keys[i] <= best + slack}
-                # a feasible point without a usable objective is not comparable: tolerated, reported apart
-                self.tolerated = {i for i in range(self.n) if self.feasible[i] and self.keys[i] is None}
+                # feasible points without a usable objective (missing / NaN) rank after every value: not acceptable
+                self.incomparable = {i for i in range(self.n) if self.feasible[i] and self.keys[i] is None}
+                self.tolerated = set()
             else:
                 self.best_key = None
                 self.acceptable = {i for i in range(self.n) if self.feasible[i]}
